@@ -396,15 +396,23 @@ klass('Queue', fields={'backoff': 'Backoff'})
 predicate('QUEUE_ok(q)', 'INV_timetable(q) and GHOST_ok(q) and INV_flight(q) and q.backoff != None')
 
 contract('Queue._retry_later', module=M, props=['C01', 'C12', 'C13', 'C03'], yields=True,
-         params={'self': 'Queue', 'id': 'Str', 'envelope': 'Envelope', 'replies': 'Union[Reply, List[Reply]]'},
+         params={'self': 'Queue', 'id': 'Str', 'envelope': 'Envelope', 'replies': 'Union[Reply, List[Reply]]',
+                 'delivered': 'Opt[Set[Int]]'},
+         defaults={'delivered': 'None'},
          returns='Bool',
          requires=['QUEUE_ok(self)', 'envelope != None', 'envelope.recipients != None',
                    'id in self.attempting', 'id in self.active_ids', 'id not in self.queued_ids',
+                   # the settled positions to persist (partial delivery): positions of the envelope get() returned
+                   'implies(delivered is not None, forall(Int, lambda p: implies(p in cast(delivered, Set[Int]), '
+                   '        0 <= p and p < self.store.rs_nrcpts[id])))',
                    'implies(is_type(replies, List[Reply]), '
                    '  len(cast(replies, List[Reply])) >= len(envelope.recipients) '
                    '  and forall(cast(replies, List[Reply]), lambda r: r != None and r.message is not None))',
                    'implies(is_type(replies, Reply), cast(replies, Reply) != None and cast(replies, Reply).message is not None)'],
          rely=OWNER_RELY,
+         # C03 marks-before-release: the settled positions are persisted while this attempt still owns the id
+         # (otherwise an attempt started during the yielding store call would see them again)
+         call_requires={'QueueStorage.set_recipients_delivered': ['id in self.active_ids', 'id in self.attempting']},
          # ghost: snapshots taken after the last yield point of the exhausted branch; the attempt ends (leaves
          # `attempting`) where the code releases the id
          ghost_after={'wait = self.backoff(envelope, attempts)': ['_gact = set(self.active_ids)', '_gqid = set(self.queued_ids)',
@@ -416,6 +424,10 @@ contract('Queue._retry_later', module=M, props=['C01', 'C12', 'C13', 'C03'], yie
                   '        and len(self.bounces) == old(len(self.bounces)))',
                   'implies(result, setv(self.removed) == old(setv(self.removed)))',
                   'implies(result, exists(self.queued, lambda e: e[1] == id and e[0] == self.store.rs_ts[id]))',
+                  # ... and, for a partial delivery, with exactly the given positions marked -- once
+                  'implies(result and delivered is not None, self.store.last_marked_id == id '
+                  '        and self.store.last_marks == setv(cast(delivered, Set[Int])) and self.store.n_marks == old(self.store.n_marks) + 1)',
+                  'implies(not result or delivered is None, self.store.n_marks == old(self.store.n_marks))',
                   # retries exhausted: removed, and bounced -- never silently dropped
                   'implies(not result, id in self.removed and id not in self.active_ids and id not in self.attempting '
                   '        and id not in self.queued_ids)',
@@ -432,7 +444,8 @@ contract('Queue._retry_later', module=M, props=['C01', 'C12', 'C13', 'C03'], yie
                   '   and self.bounces[old(len(self.bounces)) + self.sbr_gidx[i]][0].sender == envelope.sender))',
                   'forall(range(0, old(len(self.bounces))), lambda j: same(self.bounces[j], old(seq(self.bounces))[j]))'],
          modifies=['contents(self.queued)', 'contents(self.queued_ids)', 'self.queued', 'self.queued_ids', 'contents(self.active_ids)', 'self.wake.flag', 'contents(self.pending_dequeue)', 'contents(self.attempting)', 'contents(self.pending_retry)', 'contents(self.removed)', 'contents(self.bounces)', 'self.sbr_gidx', 'self.sbr_gpos',
-                   'self.store.rs_attempts', 'self.store.rs_ts', 'any(Reply).message', 'fresh'],
+                   'self.store.rs_attempts', 'self.store.rs_ts', 'self.store.rs_rcpts', 'self.store.rs_nrcpts',
+                   'self.store.last_marks', 'self.store.last_marked_id', 'self.store.n_marks', 'any(Reply).message', 'fresh'],
          loops={0: dict(modifies=['contents(self.bounces)', 'any(Reply).message', 'contents(self.removed)',
                                   'contents(self.queued_ids)', 'contents(self.active_ids)', 'contents(self.attempting)'],
                         inv=['forall(_seq0, lambda g: g[0] != None and g[0].message is not None)',
@@ -461,6 +474,8 @@ predicate('RESULTS_ok(results, envelope)',
           '      and cast(dict_get(results, r), RelayError).reply != None '
           '      and cast(dict_get(results, r), RelayError).reply.message is not None))')
 
+predicate('MARKED0(q)', 'q.store.n_marks == old(q.store.n_marks)')
+predicate('MARKED1(q)', 'q.store.n_marks == old(q.store.n_marks) + 1')
 contract('Queue._handle_partial_relay', module=M, props=['C01', 'C03', 'C13'], yields=True,
          params={'self': 'Queue', 'id': 'Str', 'envelope': 'Envelope', 'attempts': 'Int',
                  'results': 'Dict[Str, RcptResult]'},
@@ -469,8 +484,8 @@ contract('Queue._handle_partial_relay', module=M, props=['C01', 'C03', 'C13'], y
                    'distinct_by(envelope.recipients, lambda r: r)',
                    'seq(envelope.recipients) == rs_out(self.store, id)'],
          rely=OWNER_RELY,
-         # C03 marks-before-release: the settled positions must be persisted while this attempt still owns the id
-         # (otherwise an attempt started during the yielding store call sees them again)
+         # C03 marks-before-release: the settled positions are persisted by _retry_later, which is given them and
+         # carries the same obligation; should this function ever mark directly again, it must still own the id
          call_requires={'QueueStorage.set_recipients_delivered': ['id in self.active_ids']},
          ensures=['INV_timetable(self)', 'GHOST_ok(self)', 'INV_flight(self)',
                   'implies(not bool(envelope.sender), len(self.bounces) == old(len(self.bounces)))',
@@ -478,19 +493,19 @@ contract('Queue._handle_partial_relay', module=M, props=['C01', 'C03', 'C13'], y
                   '        len(self.bounces) > old(len(self.bounces)))'],
          checks=[
              # C03 marks-exact: when the message stays queued, exactly the settled positions were marked
-             'implies(ncalls("QueueStorage.set_recipients_delivered") == 1, self.store.last_marked_id == id and forall(range(0, len(envelope.recipients)), lambda p: '
+             'implies(MARKED1(self), self.store.last_marked_id == id and forall(range(0, len(envelope.recipients)), lambda p: '
              '        (p in self.store.last_marks) == settled(dict_get(results, envelope.recipients[p]))))',
              # C01: otherwise the message has been removed (store.remove called or spawned) ...
-             'implies(ncalls("QueueStorage.set_recipients_delivered") == 0, id in self.removed or ncalls("QueueStorage.remove") == 1)',
+             'implies(MARKED0(self), id in self.removed or ncalls("QueueStorage.remove") == 1)',
              # ... and then nobody is left outstanding silently
-             'implies(ncalls("QueueStorage.set_recipients_delivered") == 0 and bool(envelope.sender) and exists(envelope.recipients, lambda r: transient(dict_get(results, r))), '
+             'implies(MARKED0(self) and bool(envelope.sender) and exists(envelope.recipients, lambda r: transient(dict_get(results, r))), '
              '        len(self.bounces) > old(len(self.bounces)))',
-             'implies(ncalls("QueueStorage.set_recipients_delivered") == 0 and bool(envelope.sender) and exists(envelope.recipients, lambda r: permanent(dict_get(results, r))) '
+             'implies(MARKED0(self) and bool(envelope.sender) and exists(envelope.recipients, lambda r: permanent(dict_get(results, r))) '
              '        and exists(envelope.recipients, lambda r: transient(dict_get(results, r))), '
              '        len(self.bounces) > old(len(self.bounces)) + 1)',
              # a message is marked at most once per attempt, and only when some recipient is still outstanding
-             'ncalls("QueueStorage.set_recipients_delivered") <= 1',
-             'implies(ncalls("QueueStorage.set_recipients_delivered") == 1, exists(envelope.recipients, lambda r: transient(dict_get(results, r))))'],
+             'MARKED0(self) or MARKED1(self)',
+             'implies(MARKED1(self), exists(envelope.recipients, lambda r: transient(dict_get(results, r))))'],
          modifies=['contents(self.queued)', 'contents(self.queued_ids)', 'self.queued', 'self.queued_ids', 'contents(self.active_ids)', 'self.wake.flag', 'contents(self.pending_dequeue)', 'contents(self.attempting)', 'contents(self.pending_retry)', 'contents(self.removed)', 'contents(self.bounces)', 'self.sbr_gidx', 'self.sbr_gpos', 'self.store.rs_attempts', 'self.store.rs_ts', 'self.store.rs_has', 'self.store.rs_rcpts', 'self.store.rs_nrcpts', 'self.store.last_marks', 'self.store.last_marked_id', 'self.store.n_marks', 'any(Reply).message', 'fresh'],
          locals={'delivered': 'Set[Int]', 'tempfails': 'List[Tuple[Str, Reply]]',
                  'permfails': 'List[Tuple[Str, Reply]]'},
